@@ -1,6 +1,7 @@
 import GqlModel.DefaultResolve
 import GqlProofs.DefaultResolve
 import Generated.Tables
+import GqlModel.DefaultWorld
 /-! # C01 / C20 — the default resolver (`DefaultResolveFn`, executor.go 510-583)
 
 A field without a `Resolve` function is resolved by reading the property named by the field out of the parent
@@ -100,9 +101,12 @@ theorem map_entry_order_irrelevant (es es' : List (String × PVal)) (name : Stri
 an absent key and a nil entry both give nil. -/
 theorem mapIface_entry (es : List (String × PVal)) (name : String) (v : PVal)
     (hnd : (es.map (·.1)).Nodup) (hm : (name, v) ∈ es) :
-    defaultResolve (.mapIface es) name =
-      (match v with | .func0 id => .called id | v => .value v) := by
+    defaultResolve (.mapIface es) name = ifaceProperty (some v) := by
   simp only [defaultResolve, lookup_of_mem_nodup es name v hnd hm]
+
+/-- … and `ifaceProperty (some v)` is `v` itself unless `v` is a `func() interface{}`, which is called. -/
+theorem ifaceProperty_some (v : PVal) :
+    ifaceProperty (some v) = (match v with | .func0 id => .called id | v => .value v) := by
   cases v <;> rfl
 
 theorem mapIface_absent (es : List (String × PVal)) (name : String) (h : name ∉ es.map (·.1)) :
@@ -202,5 +206,69 @@ theorem default_resolver_constants_as_modelled :
        ("assert", "map[string]interface{}"),
        ("assert", "func() interface{}"),
        ("assert", "func() interface{}")] := by decide
+
+end GqlModel.DefaultResolve
+
+/-! ## End to end: the response does not depend on how a property table is rendered as a Go value
+
+`Exec.execute` is the execution algorithm S of C01; `defaultWorld` is its resolver table for default-resolved
+objects. -/
+namespace GqlModel.DefaultResolve
+open GqlModel.Exec GqlModel.Coerce
+
+/-- Two renderings of the same objects that the default resolver cannot tell apart on the schema's field names
+give the same response (data, errors, invocation log), for every schema, document, variables and fuel. -/
+theorem response_independent_of_rendering (s : Schema) (doc : Document) (op : String) (inputs : Vars) (fuel : Nat)
+    (I : Interp) (names : List String) (base : World)
+    (objs : List (Nat × String × Source × Source))
+    (h : ∀ o ∈ objs, ∀ n ∈ names, defaultResolve o.2.2.1 n = defaultResolve o.2.2.2 n) :
+    execute s doc op inputs (defaultWorld I names (objs.map fun o => (o.1, o.2.1, o.2.2.1)) base) fuel =
+    execute s doc op inputs (defaultWorld I names (objs.map fun o => (o.1, o.2.1, o.2.2.2)) base) fuel := by
+  have hw : defaultWorld I names (objs.map fun o => (o.1, o.2.1, o.2.2.1)) base =
+            defaultWorld I names (objs.map fun o => (o.1, o.2.1, o.2.2.2)) base := by
+    unfold defaultWorld
+    simp only [List.map_map]
+    congr 1
+    apply List.map_congr_left
+    intro o ho
+    simp only [Function.comp, objOf]
+    congr 2
+    apply List.map_congr_left
+    intro n hn
+    rw [h o ho n hn]
+  rw [hw]
+
+/-- A struct (or pointer to struct) that encodes a property table unambiguously and the `map[string]interface{}`
+holding the same table are indistinguishable for the default resolver on the table's keys, provided no entry is
+a `func() interface{}` (a map calls such an entry, a struct field hands it back: `struct_vs_map_func0_differs`). -/
+theorem struct_vs_map (ptr : Bool) (fs : List SField) (tbl : List (String × PVal))
+    (hun : Unambiguous fs (tbl.map (·.1))) (hexp : ∀ f ∈ fs, f.exported = true)
+    (hval : ∀ i (hi : i < fs.length) (hj : i < tbl.length), fs[i].val = tbl[i].2)
+    (hnd : (tbl.map (·.1)).Nodup) (hnf : ∀ e ∈ tbl, ∀ id, e.2 ≠ .func0 id)
+    (n : String) (hn : n ∈ tbl.map (·.1)) :
+    defaultResolve (.struct ptr fs) n = defaultResolve (.mapIface tbl) n := by
+  obtain ⟨i, hi, hni⟩ := List.getElem_of_mem hn
+  have hlen : fs.length = tbl.length := by simpa using hun.1
+  have hit : i < tbl.length := by simpa using hi
+  have hif : i < fs.length := by omega
+  have hkey : n = tbl[i].1 := by rw [← hni]; simp
+  have h1 := struct_encodes_table ptr fs (tbl.map (·.1)) hun hexp i hif hi
+  rw [hni] at h1
+  rw [h1, hval i hif hit]
+  have hmem : (n, tbl[i].2) ∈ tbl := by
+    rw [hkey]
+    exact List.getElem_mem hit
+  rw [mapIface_entry tbl n tbl[i].2 hnd hmem]
+  have := hnf tbl[i] (List.getElem_mem hit)
+  generalize tbl[i].2 = v at this ⊢
+  cases v with
+  | func0 id => exact absurd rfl (this id)
+  | nil => rfl
+  | plain id => rfl
+  | funcOther id => rfl
+
+theorem struct_vs_map_func0_differs :
+    defaultResolve (.struct false [⟨"F", true, "", "", .func0 1⟩]) "f" = .value (.func0 1) ∧
+    defaultResolve (.mapIface [("f", .func0 1)]) "f" = .called 1 := by decide
 
 end GqlModel.DefaultResolve
